@@ -27,7 +27,11 @@ RULE = ('cases = (dim tuple, separable state): convex mixtures of 1..2D product 
         'outputs of rand_separable_dm / SeparableDensityMatrix / AutodiffCHAREE / CHABoundaryBagging; Werner, isotropic, '
         'Horodecki and Antoine families inside their separable range. A case counts only after the reference re-verified its '
         'certificate; it is non-trivial when the state is not diagonal in the computational basis (largest off-diagonal '
-        'modulus > 1e-6; this excludes the maximally mixed state). Distinct by digest of (dim tuple, matrix bytes).')
+        'modulus > 1e-6; this excludes the maximally mixed state). Distinct by digest of (dim tuple, matrix bytes). States are '
+        'handed over as complex128 and (real mixtures) float64 arrays, C-contiguous, Fortran-ordered and as strided views; the '
+        'criteria are called in a different order for every state; work-buffer histories refill / update ONE array in place '
+        '(separable -> entangled -> separable -> mixed in place) and edit earlier results before calling again; every shard runs '
+        'its dim tuples / SDP configurations a second time in another order.')
 EXHAUSTIVE = {'quick': False, 'thorough': False}
 EXHAUSTIVE_DOMAINS = {'quick': [], 'thorough': []}
 ASSUMPTIONS = [
@@ -53,7 +57,8 @@ DECIDING = ['is_ppt', 'is_generalized_ppt', 'check_reduction_witness', 'check_sw
             'labelled/get_negativity', 'labelled/get_concurrence_2qubit', 'labelled/get_eof_2qubit', 'labelled/get_gme_2qubit',
             'labelled/is_ABk_symmetric_ext', 'labelled/get_ppt_boundary',
             'producer/rand_separable_dm', 'producer/SeparableDensityMatrix.forward', 'producer/harness-mixture',
-            'producer/named-family']
+            'producer/named-family', 'argument-unchanged', 'history/work-buffer', 'history/result-edited', 'input/float64',
+            'input/complex128/not-c-contiguous', 'order/second-pass-reversed', 'order/first-config-again']
 
 ZERO = 1e-7
 BIP = [(2, 2), (2, 3), (3, 2), (3, 3), (2, 4)]
@@ -206,11 +211,29 @@ def install(ctx, numqi, reg):
         if v == v:
             worst[name] = max(worst.get(name, 0.0), v)
 
+    def snapshot(argname):
+        def pre(c):
+            return np.array(to_numpy(c.arg(0, argname)), copy=True)
+        return pre
+
+    def unchanged(c, name, argname):
+        """the array argument must come back unmodified. Returns the snapshot taken at call time: the ghost label is looked up
+        (and the contract judged) on what the function was GIVEN, not on what it left behind."""
+        now = to_numpy(c.arg(0, argname))
+        snap = c.snap['arg'] if isinstance(c.snap, dict) else c.snap
+        if snap is None:
+            return now
+        same = now.shape == snap.shape and now.dtype == snap.dtype and bool(np.array_equal(now, snap, equal_nan=True))
+        ctx.check(same, f'{name}/mutates-argument', f'{name} modified its array argument in place',
+                  lambda: {'dtype': str(snap.dtype), 'c_contiguous': bool(now.flags.c_contiguous), 'before': snap, 'after': now},
+                  point='argument-unchanged')
+        return snap
+
     def boolean_contract(name, get_dims, eps_index):
         def post(c):
             if c.exc is not None:
                 return
-            rho = c.arg(0, 'rho')
+            rho = unchanged(c, name, 'rho')
             dims = get_dims(c, rho)
             if dims is None:
                 return
@@ -249,19 +272,19 @@ def install(ctx, numqi, reg):
         d = int(round(math.sqrt(n)))
         return (d, d) if d * d == n else None
 
-    ctx.attach(E.ppt, 'is_ppt', post=boolean_contract('is_ppt', dims_arg, (2, 'eps', -1e-7, lambda e: e <= -1e-9)), point='is_ppt')
-    ctx.attach(E.ppt, 'is_generalized_ppt', point='is_generalized_ppt',
+    ctx.attach(E.ppt, 'is_ppt', pre=snapshot('rho'), post=boolean_contract('is_ppt', dims_arg, (2, 'eps', -1e-7, lambda e: e <= -1e-9)), point='is_ppt')
+    ctx.attach(E.ppt, 'is_generalized_ppt', point='is_generalized_ppt', pre=snapshot('rho'),
                post=boolean_contract('is_generalized_ppt', dims_arg, (3, 'zero_eps', 1e-10, lambda e: e >= 1e-12)))
-    ctx.attach(E._misc, 'check_reduction_witness', point='check_reduction_witness',
+    ctx.attach(E._misc, 'check_reduction_witness', point='check_reduction_witness', pre=snapshot('rho'),
                post=boolean_contract('check_reduction_witness', dims_arg, (2, 'eps', -1e-7, lambda e: e <= -1e-9)))
-    ctx.attach(E._misc, 'check_swap_witness', point='check_swap_witness',
+    ctx.attach(E._misc, 'check_swap_witness', point='check_swap_witness', pre=snapshot('rho'),
                post=boolean_contract('check_swap_witness', dims_square, (1, 'eps', -1e-7, lambda e: e <= -1e-9)))
 
     def measure_contract(name, get_dims):
         def post(c):
             if c.exc is not None:
                 return
-            rho = c.arg(0, 'rho')
+            rho = unchanged(c, name, 'rho')
             dims = get_dims(c, rho)
             if dims is None:
                 return
@@ -289,16 +312,16 @@ def install(ctx, numqi, reg):
         return post
 
     two_qubit = lambda c, rho: (2, 2) if to_numpy(rho).shape == (4, 4) else None
-    ctx.attach(E.eof, 'get_concurrence_2qubit', post=measure_contract('get_concurrence_2qubit', two_qubit), point='get_concurrence_2qubit')
-    ctx.attach(E.eof, 'get_eof_2qubit', post=measure_contract('get_eof_2qubit', two_qubit), point='get_eof_2qubit')
-    ctx.attach(E.measure, 'get_gme_2qubit', post=measure_contract('get_gme_2qubit', two_qubit), point='get_gme_2qubit')
-    ctx.attach(E._misc, 'get_negativity', post=measure_contract('get_negativity', dims_arg), point='get_negativity')
+    ctx.attach(E.eof, 'get_concurrence_2qubit', pre=snapshot('rho'), post=measure_contract('get_concurrence_2qubit', two_qubit), point='get_concurrence_2qubit')
+    ctx.attach(E.eof, 'get_eof_2qubit', pre=snapshot('rho'), post=measure_contract('get_eof_2qubit', two_qubit), point='get_eof_2qubit')
+    ctx.attach(E.measure, 'get_gme_2qubit', pre=snapshot('rho'), post=measure_contract('get_gme_2qubit', two_qubit), point='get_gme_2qubit')
+    ctx.attach(E._misc, 'get_negativity', pre=snapshot('rho'), post=measure_contract('get_negativity', dims_arg), point='get_negativity')
 
     # ---------------- PPT boundary: the separable state itself (beta = its Gell-Mann norm) lies inside [beta_l, beta_u]
     def post_ppt_boundary(c):
         if c.exc is not None:
             return
-        dm = to_numpy(c.arg(0, 'dm'))
+        dm = unchanged(c, 'get_ppt_boundary', 'dm')
         dims = dims_arg(c, None)
         if dims is None or len(dims) != 2 or dm.ndim < 2:
             return
@@ -335,16 +358,16 @@ def install(ctx, numqi, reg):
                 ctx.check(bu[i] >= used * (1 - 1e-9) and bl[i] <= 1e-12, 'get_ppt_boundary/separable-state-outside',
                           'a certified separable state lies outside the PPT segment [beta_l, beta_u] of its own ray', wit)
 
-    ctx.attach(E.ppt, 'get_ppt_boundary', post=post_ppt_boundary, point='get_ppt_boundary')
+    ctx.attach(E.ppt, 'get_ppt_boundary', pre=snapshot('dm'), post=post_ppt_boundary, point='get_ppt_boundary')
 
     # ---------------- symmetric / bosonic extension (SDP)
     def pre_symext(c):
-        return len(slog)
+        return {'n': len(slog), 'arg': np.array(to_numpy(c.arg(0, 'rho')), copy=True)}
 
     def post_symext(c):
         if c.exc is not None:
             return
-        rho = to_numpy(c.arg(0, 'rho'))
+        rho = unchanged(c, 'is_ABk_symmetric_ext', 'rho')
         dims = dims_arg(c, None)
         if dims is None or len(dims) != 2 or rho.ndim not in (2, 3):
             return
@@ -361,7 +384,7 @@ def install(ctx, numqi, reg):
                 flags = list(np.asarray(res).reshape(-1))
         except Exception:
             flags = []
-        entries = slog[c.snap:] if c.snap is not None else []
+        entries = slog[c.snap['n']:] if c.snap is not None else []
         cfg = f'ppt={int(use_ppt)},boson={int(use_boson)}'
         for i, r in enumerate(items):
             lab = reg.lookup(r, dims)
@@ -474,7 +497,7 @@ def install(ctx, numqi, reg):
 def gen_cert(rng, dims, kind):
     """a decomposition certificate of the requested kind (the state is *defined* as its rebuilt mixture)."""
     D = int(np.prod(dims))
-    real = kind == 'random-real'
+    real = kind in ('random-real', 'full-rank-real')
     rv = lambda: [R.random_unit(rng, d, real) for d in dims]
     if kind in ('random', 'random-real'):
         n = int(rng.integers(1, 2 * D + 1))
@@ -482,7 +505,7 @@ def gen_cert(rng, dims, kind):
     if kind == 'few-terms':
         n = int(rng.integers(1, 4))
         return R.cert_from_terms(dims, rng.dirichlet(np.ones(n)), [rv() for _ in range(n)])
-    if kind == 'full-rank':
+    if kind in ('full-rank', 'full-rank-real'):
         n = D + int(rng.integers(2, D + 1))
         return R.cert_from_terms(dims, rng.dirichlet(np.ones(n) * 5), [rv() for _ in range(n)])
     if kind == 'basis':
@@ -554,34 +577,140 @@ def run(ctx, shard):
         ctx.case('state', list(dims), rho.astype(np.complex128), nontrivial=off > 1e-6, sample=smp)
         return rho
 
-    def closed_suite(rho, dims, real_input=False):
-        """every closed-form criterion applicable to this dim tuple, each under its own guard."""
-        arg = rho.real.copy() if real_input else rho
-        with ctx.guard('is_ppt'):
-            E.is_ppt(arg, dims)
-        with ctx.guard('is_generalized_ppt'):
-            if rng.random() < 0.3:
-                E.is_generalized_ppt(arg, dims, return_info=True)
-            else:
-                E.is_generalized_ppt(arg, dims)
-        with ctx.guard('check_reduction_witness'):
-            E.check_reduction_witness(arg, dims)
+    def layout_variant(rho, real_input):
+        """the same VALUES as another dtype / memory layout: (argument, tag)"""
+        if real_input:
+            return rho.real.copy(), 'float64'
+        u = rng.random()
+        if u < 0.12:
+            return np.asfortranarray(rho), 'fortran-ordered copy'
+        if u < 0.24:
+            big = np.zeros((2 * rho.shape[0], 2 * rho.shape[1]), dtype=rho.dtype)
+            big[::2, ::2] = rho
+            return big[::2, ::2], 'non-contiguous strided view'
+        return rho, str(rho.dtype)
+
+    def suite_calls(arg, rho, dims):
+        """(guard name, thunk) for every closed-form criterion applicable to this dim tuple"""
+        calls = [('is_ppt', lambda: E.is_ppt(arg, dims)),
+                 ('is_generalized_ppt', (lambda: E.is_generalized_ppt(arg, dims, return_info=True)) if rng.random() < 0.3
+                  else (lambda: E.is_generalized_ppt(arg, dims))),
+                 ('check_reduction_witness', lambda: E.check_reduction_witness(arg, dims))]
         if len(dims) == 2:
             if dims[0] == dims[1]:
-                with ctx.guard('check_swap_witness'):
-                    E.check_swap_witness(arg)
-            with ctx.guard('get_negativity'):
-                E.get_negativity(arg, dims)
+                calls.append(('check_swap_witness', lambda: E.check_swap_witness(arg)))
+            calls.append(('get_negativity', lambda: E.get_negativity(arg, dims)))
             if R.gellmann_norm(rho) > 1e-6:
-                with ctx.guard('get_ppt_boundary'):
-                    E.get_ppt_boundary(arg, dims)
+                calls.append(('get_ppt_boundary', lambda: E.get_ppt_boundary(arg, dims)))
             if tuple(dims) == (2, 2):
-                with ctx.guard('get_concurrence_2qubit'):
-                    E.get_concurrence_2qubit(arg)
-                with ctx.guard('get_eof_2qubit'):
-                    E.get_eof_2qubit(arg)
-                with ctx.guard('get_gme_2qubit'):
-                    E.get_gme_2qubit(arg)
+                calls += [('get_concurrence_2qubit', lambda: E.get_concurrence_2qubit(arg)), ('get_eof_2qubit', lambda: E.get_eof_2qubit(arg)),
+                          ('get_gme_2qubit', lambda: E.get_gme_2qubit(arg))]
+        return calls
+
+    def closed_suite(rho, dims, real_input=False, arg=None):
+        """every closed-form criterion applicable to this dim tuple, each under its own guard, in an order that changes from state
+        to state; the argument is handed over in varying dtype / memory layout (or is the caller's work buffer `arg`)."""
+        if arg is None:
+            arg, tag = layout_variant(rho, real_input)
+            ctx.hit('input/' + ('float64' if not np.iscomplexobj(arg) else 'complex128') + ('' if arg.flags.c_contiguous else '/not-c-contiguous'))
+        calls = suite_calls(arg, rho, dims)
+        out = {}
+        for i in rng.permutation(len(calls)):
+            gname, thunk = calls[i]
+            with ctx.guard(gname):
+                out[gname] = thunk()
+        return out
+
+    def as_plain(x):
+        """a criterion's answer as something comparable"""
+        if isinstance(x, tuple) and len(x) == 2 and isinstance(x[1], list):  # is_generalized_ppt(return_info=True)
+            return ('bool', bool(x[0]))
+        if isinstance(x, tuple):
+            return ('arr', np.array([np.asarray(t, dtype=np.float64) for t in x]))
+        if isinstance(x, (bool, np.bool_)):
+            return ('bool', bool(x))
+        return ('arr', np.asarray(x, dtype=np.float64))
+
+    def same_answer(a, b):
+        a, b = as_plain(a), as_plain(b)
+        if a[0] != b[0]:
+            return False
+        if a[0] == 'bool':
+            return a[1] == b[1]
+        return a[1].shape == b[1].shape and bool(np.all((np.abs(a[1] - b[1]) <= 1e-7 * (1 + np.abs(b[1]))) | (np.isnan(a[1]) & np.isnan(b[1]))))
+
+    def history(dims):
+        """work-buffer history on ONE array object: separable content -> entangled content -> other separable content -> in-place
+        mixing with the maximally mixed state. Contracts see the CURRENT content (snapshot + digest at call time); in addition every
+        answer on the buffer is compared with the answer on a fresh copy of the same values."""
+        dims = tuple(dims)
+        D = int(np.prod(dims))
+        real = bool(rng.integers(2))
+        buf = np.empty((D, D), dtype=np.float64 if real else np.complex128)
+        psi = np.zeros(D)
+        psi[0] = psi[-1] = 1 / math.sqrt(2)
+        ent = 0.9 * np.outer(psi, psi) + 0.1 * np.eye(D) / D
+        kinds = ['random-real', 'basis', 'random-real'] if real else ['random', 'pure-product', 'full-rank']
+        steps = []
+        for kk in kinds[:2]:
+            steps.append(('separable ' + kk, kk))
+            steps.append(('entangled (unlabelled)', None))
+        steps.append(('separable ' + kinds[2], kinds[2]))
+        steps.append(('in-place mixing of the previous separable content with the maximally mixed state', 'mix'))
+        last_cert = None
+        for step, (desc, kk) in enumerate(steps):
+            if kk is None:
+                buf[:] = ent
+                cur = None
+            elif kk == 'mix':
+                buf *= 0.5
+                buf += 0.5 * np.eye(D) / D
+                basis = R.product_basis_cert(dims)
+                cert = R.Certificate(dims, np.concatenate([0.5 * last_cert.weights, 0.5 * basis.weights]),
+                                     [np.concatenate([a, b]) for a, b in zip(last_cert.vectors, basis.vectors)])
+                cur = register(buf.copy(), dims, 'harness-mixture', desc, cert)
+            else:
+                last_cert = gen_cert(rng, dims, kk)
+                rho = R.rebuild(last_cert)
+                buf[:] = rho.real if real else rho
+                cur = register(buf.copy(), dims, 'harness-mixture', desc, last_cert)
+            ctx.set_case({'history': 'work buffer', 'step': step, 'content': desc, 'dims': list(dims), 'dtype': str(buf.dtype)})
+            ctx.workload('realistic')
+            content = buf.copy()
+            on_buffer = closed_suite(content, dims, arg=buf)
+            if cur is None:
+                continue
+            fresh = closed_suite(content, dims, arg=content.copy())
+            for gname, ans in on_buffer.items():
+                if gname in fresh:
+                    ctx.check(same_answer(ans, fresh[gname]), f'{gname}/stale-after-inplace-update',
+                              f'{gname} answers differently on a work buffer that was updated in place than on a fresh copy of the same values',
+                              lambda: {'on_buffer': repr(ans)[:200], 'on_fresh_copy': repr(fresh[gname])[:200], 'content': desc, 'rho': content},
+                              point='history/work-buffer')
+
+    def result_edit_history(rho, dims):
+        """edit the RESULT of a call in place, call again with the same argument: the second answer must not be the edited object"""
+        if len(dims) == 2 and R.gellmann_norm(rho) > 1e-6:
+            batch = np.stack([rho, rho])
+            with ctx.guard('get_ppt_boundary'):
+                r1 = E.get_ppt_boundary(batch, dims)
+                keep = [np.array(t, copy=True) for t in r1]
+                for t in r1:
+                    if isinstance(t, np.ndarray) and t.flags.writeable:
+                        t[...] = 123.0
+                r2 = E.get_ppt_boundary(batch, dims)
+                ok = all(np.allclose(np.asarray(a), b, rtol=1e-9, atol=1e-12) for a, b in zip(r2, keep))
+                ctx.check(ok, 'get_ppt_boundary/result-aliases-earlier-call', 'get_ppt_boundary: editing an earlier result changes the next answer',
+                          {'dims': list(dims), 'second': [np.asarray(a) for a in r2], 'first': keep}, point='history/result-edited')
+        with ctx.guard('is_generalized_ppt'):
+            t1 = E.is_generalized_ppt(rho, dims, return_info=True)
+            norms = [float(x[2]) for x in t1[1]]
+            if isinstance(t1[1], list):
+                t1[1].clear()
+            t2 = E.is_generalized_ppt(rho, dims, return_info=True)
+            ok = bool(t2[0]) == bool(t1[0]) and [float(x[2]) for x in t2[1]] == norms
+            ctx.check(ok, 'is_generalized_ppt/result-aliases-earlier-call', 'is_generalized_ppt: editing an earlier info list changes the next answer',
+                      {'dims': list(dims), 'first': norms[:8], 'second_len': len(t2[1])}, point='history/result-edited')
 
     def drive_closed(rho, cert, real_input=False):
         closed_suite(rho, cert.dims, real_input)
@@ -618,6 +747,10 @@ def run(ctx, shard):
                     continue
                 real_in = kind in ('random-real', 'basis', 'max-mixed') and rng.random() < 0.5
                 drive_closed(rho, cert, real_in)
+                if it % 40 == 3:
+                    history(dims if len(dims) == 2 or it % 80 else R.coarsenings(dims)[0][0])
+                if it % 50 == 9:
+                    result_edit_history(rho, dims)
                 if len(dims) == 2 and it % 25 == 0:  # batched boundary call on labelled states
                     others = [harness_state(dims, 'random')[0] for _ in range(2)]
                     batch = np.stack([rho] + [o for o in others if o is not None])
@@ -631,6 +764,17 @@ def run(ctx, shard):
                 ent = np.outer(psi, psi.conj())
                 ctx.set_case({'control': 'entangled pure state', 'dims': list(dims)})
                 closed_suite(ent, dims)
+        # call order: the dim tuples of this shard once more in the opposite order (fewer states), then the first one again
+        order2 = [tuple(d) for d in reversed(shard['dims_list'])] + [tuple(shard['dims_list'][0])]
+        for dims in order2:
+            for it in range(max(6, shard['n'] // 12)):
+                kind = KINDS[(3 * it + 1) % len(KINDS)]
+                ctx.workload('random' if kind.startswith(('random', 'few', 'full')) else 'corner')
+                rho, cert = harness_state(dims, kind)
+                if rho is not None:
+                    drive_closed(rho, cert, kind in ('random-real', 'basis') and it % 2 == 0)
+            history(dims if len(dims) == 2 else R.coarsenings(dims)[-2][0])
+            ctx.hit('order/second-pass-reversed')
 
     # ------------------------------------------------------------------ SDP shards
     elif name.startswith('sdp'):
@@ -674,6 +818,17 @@ def run(ctx, shard):
             # the closed-form criteria see the same states
             for r in states:
                 closed_suite(r, dims)
+        # call order: the first configuration once more at the end of the process (after the other configurations were built)
+        if ctx.time_left() >= 8 and len(shard['configs']) > 1:
+            k, use_ppt, use_boson = shard['configs'][0]
+            again = [x for x in (harness_state(dims, 'full-rank')[0], harness_state(dims, 'full-rank-real')[0]) if x is not None]
+            ctx.set_case({'dims': list(dims), 'kext': k, 'use_ppt': bool(use_ppt), 'use_boson': bool(use_boson), 'pass': 'first configuration again'})
+            if again:
+                # the second state as a float64 array (real separable mixture)
+                call_symext(again[0], dims, k, use_ppt=bool(use_ppt), use_boson=bool(use_boson))
+                if len(again) > 1:
+                    call_symext(again[1].real.copy(), dims, k, use_ppt=bool(use_ppt), use_boson=bool(use_boson))
+                ctx.hit('order/first-config-again')
         ctx.extra['configs_skipped_for_time'] = skipped
         if skipped:
             ctx.inconclusive('sdp-config-skipped-for-time', len(skipped))
